@@ -83,6 +83,39 @@ def js_deref_rules(ck, rule, facts, enum_only=False):
         ck.bad(rule, "js::deref/recursion-anchor", "expected 2 recursive calls for wrapper structs, found %d" % nrec, where)
 
 
+def js_result_buffer_rules(ck, rule, facts):
+    """The JS receive buffer of a fallible method is sized for the larger of the two payloads (flag offset = max(size(T), size(E))).  Shared with C10."""
+    tool = facts.tool
+    f = next(iter(tool.fns_matching(r"::js::converter::.*::gen_c_to_js_for_return_type$")), None)
+    if f is None:
+        ck.bad(rule, "js::result-buffer/anchor", "gen_c_to_js_for_return_type not found")
+        return
+    nodes = list(C.walk_inl(tool, C.fn_body(f), 1, exclude=[f["path"]]))
+    cands = []
+    for n in nodes:
+        if n.get("k") == "letst" and isinstance(n.get("pat"), dict) and n["pat"].get("k") == "bind" and n.get("init") is not None:
+            uses = [l_ for m_ in nodes if m_.get("k") == "macro" and "DiplomatReceiveBuf" in m_.get("src", "") for l_ in [m_]]
+            if n["pat"].get("n") == "size":
+                cands.append(n)
+    ok = False
+    detail = "no `size` computation found"
+    for n in cands:
+        init = n["init"]
+        has_plus1 = any(x.get("k") == "bin" and x.get("op") == "Add" and any(C.strip(y).get("k") == "lit" and str(C.strip(y).get("v")) == "1" for y in (x["l"], x["r"])) for x in C.walk(init))
+        maxes = [x for x in C.walk(init) if (x.get("k") == "call" and (C.callee(x) or "").endswith("cmp::max")) or (x.get("k") == "mcall" and x.get("m") == "max")]
+        both = False
+        for mx in maxes:
+            sizes = [y for y in C.walk(mx) if y.get("k") == "mcall" and y.get("m") == "size"]
+            from_layout = any(C.strip(y["recv"]).get("k") == "local" for y in sizes)
+            from_err = any(any(z.get("k") in ("call", "mcall") and (C.callee(z) or z.get("m", "")).endswith("type_size_alignment") for z in C.walk(y["recv"])) for y in sizes)
+            both = both or (from_layout and from_err)
+        if has_plus1:
+            ok = both
+            detail = "size = max(ok layout, error layout) + 1" if both else "size is computed from one payload only"
+    ck.expect(ok, rule, "js::result-buffer/size-covers-both-payloads", detail,
+              "the receive buffer / flag offset of a fallible JS method is %s: when the error payload is larger than the success payload the flag is read inside the payload and the buffer is too small" % detail, C.loc(f))
+
+
 def run(ck, facts):
     tool = facts.tool
     adts = facts.all_adts()
@@ -390,3 +423,4 @@ def run(ck, facts):
 
     # ---------------- R7 readers used by the deref generator
     js_deref_rules(ck, "R7", facts)
+    js_result_buffer_rules(ck, "R2", facts)
